@@ -235,7 +235,7 @@ def main(run):
         "evaluations": ncases + n_tr + n_mt,
         "round_trip_cases": sum(1 for p in ok_pairs for c in p.cases if c["dir"] == "rt"),
         "distinct_nontrivial": len(distinct),
-        "rule": ("%d src/dest package pairs: the 16 hand-written corpus pairs of mapgen.corpus() (one per rule of the property and one per finding class of the review: pointer-embedded mapper with value/pointer receivers, tags with `_`, embedded non-struct) and random ones from harness/mapgen.py (numeric widths, strings, named scalars of "
+        "rule": ("%d src/dest package pairs: the 18 hand-written corpus pairs of mapgen.corpus() (one per rule of the property and one per finding class of the review: pointer-embedded mapper with value/pointer receivers, tags with `_`, embedded non-struct) and random ones from harness/mapgen.py (numeric widths, strings, named scalars of "
                  "the dest/common packages, sub-structs by value/pointer/slice in all four pointer combinations, "
                  "maps, embedded value/pointer structs to depth 2 with shadowing, map:\"Name\"/map:\"-\" tags, "
                  "mapper-method sets in the source or a separate package incl. duplicate signatures, manual toX/fromX, "
@@ -257,6 +257,11 @@ def main(run):
 
 
 ASSUMPTIONS = [
+    "reading of the property text chosen by the specification (a decision, not a consequence of the text): a `map:\"Name\"` tag "
+    "names the destination field as written OR in Pascal form (`map:\"zip_code\"` names ZipCode), so shoot's Pascal-casing "
+    "of tag values is not a violation; an embedded field of a non-struct type is a field named after its type; field "
+    "declarations have one name each (`A, B int` with a tag is outside the model); `stay zero` of unmatched / map:\"-\" / "
+    "incompatible fields is visible only as equality with the declarative specification, it has no theorem of its own",
     "go/types predicates (Identical via shoot.TypeEquals, ConvertibleTo, Underlying) are modelled on the type palette "
     "(Model/MapVal.v) and differentially tested through the L1 probe; aliases, universe-scoped named types, arrays, "
     "channels, functions and interfaces are outside the palette",
